@@ -701,6 +701,8 @@ def cache_oracles(ctx, prop):
                         empty_stored = True
                     L = max(L, len(val))
                     nrem = int(r[1])
+                    if prop == "C13" and len(val) > tr.cap:
+                        bad.append("insert of a value of %d bytes into a cache of %d bytes succeeded (must fail with ValueLargerThanBuffer)" % (len(val), tr.cap))
                     if prop == "C06" and obs.get(k) != val:
                         bad.append("after a successful insert of key %d, get returns %s instead of the inserted bytes" % (k, obs.get(k)))
                     if prop == "C13":
